@@ -114,19 +114,25 @@ func (ds *dataStore) moveStoreKeyUnlocked(srcKeyName, destKeyName string, dds *d
 }
 
 func (ds *dataStore) enterListBlock(keyName string) (ws *wakeSignal) {
+	simBeforeLock(&ds.mu, "ds.mu")
 	ds.mu.Lock()
+	defer simAfterUnlock(&ds.mu, "ds.mu")
 	defer ds.mu.Unlock()
 	return ds.waitingClients.enterWait(keyName)
 }
 
 func (ds *dataStore) enterListMultiBlock(keyNames []string) (ws *wakeSignal) {
+	simBeforeLock(&ds.mu, "ds.mu")
 	ds.mu.Lock()
+	defer simAfterUnlock(&ds.mu, "ds.mu")
 	defer ds.mu.Unlock()
 	return ds.waitingClients.enterMultiWait(keyNames)
 }
 
 func (ds *dataStore) leaveListBlock(ws *wakeSignal) {
+	simBeforeLock(&ds.mu, "ds.mu")
 	ds.mu.Lock()
+	defer simAfterUnlock(&ds.mu, "ds.mu")
 	defer ds.mu.Unlock()
 	ds.waitingClients.disposeWakeSignal(ws)
 }
